@@ -78,10 +78,10 @@ for ssa, pats, binds, reg in arms:
     a = [x.strip() for x in pats.split(',')]
     b = [x.strip() for x in binds.split(',')]
     assert a == b, (a, b)
-    lines.append('            SsaOp::%s(%s) => self.op_reg_fn(%s, %s),' % (ssa, pats, ', '.join(b), ctor_closure(reg, ('o', 'a'))))
+    lines.append('            SsaOp::%s(%s) => {\n                let f = %s;\n                self.op_reg_fn(%s, f);\n            }' % (ssa, pats, ctor_closure(reg, ('o', 'a')), ', '.join(b)))
 lines += ['            _ => panic!(),', '        }', '    }']
 body = replace_fn(body, 'op_reg', '\n'.join(lines))
-n_unary = len(arms)
+n_unary = len(arms); ARMS_UN=[a[0] for a in arms]
 
 # op_reg_imm
 sig, fb = get_fn(body, 'op_reg_imm')
@@ -91,10 +91,10 @@ for ssa, pats, binds, reg in arms:
     a = [x.strip() for x in pats.split(',')]
     b = [x.strip() for x in binds.split(',')]
     assert a == b, (a, b)
-    lines.append('            SsaOp::%s(%s) => self.op_reg_fn(%s, %s, %s),' % (ssa, pats, b[0], b[1], ctor_closure(reg, ('o', 'a'), (b[2],))))
+    lines.append('            SsaOp::%s(%s) => {\n                let f = %s;\n                self.op_reg_fn(%s, %s, f);\n            }' % (ssa, pats, ctor_closure(reg, ('o', 'a'), (b[2],)), b[0], b[1]))
 lines += ['            _ => panic!(),', '        }', '    }']
 body = replace_fn(body, 'op_reg_imm', '\n'.join(lines))
-n_imm = len(arms)
+n_imm = len(arms); ARMS_IMM=[a[0] for a in arms]
 
 # op_reg_reg: split into dispatch + continuation
 sig, fb = get_fn(body, 'op_reg_reg')
@@ -105,11 +105,11 @@ for ssa, pats, binds, reg in arms:
     a = [x.strip() for x in pats.split(',')]
     b = [x.strip() for x in binds.split(',')]
     assert a == b, (a, b)
-    lines.append('            SsaOp::%s(%s) => self.op_reg_reg_k(%s, %s),' % (ssa, pats, ', '.join(b), ctor_closure(reg, ('o', 'a', 'b'))))
+    lines.append('            SsaOp::%s(%s) => {\n                let f = %s;\n                self.op_reg_reg_k(%s, f);\n            }' % (ssa, pats, ctor_closure(reg, ('o', 'a', 'b')), ', '.join(b)))
 lines += ['            _ => panic!(),', '        }', '    }', '',
           '    fn op_reg_reg_k(&mut self, out: u32, lhs: u32, rhs: u32, op: impl Fn(u8, u8, u8) -> RegOp) {' + rest]
 body = replace_fn(body, 'op_reg_reg', '\n'.join(lines))
-n_bin = len(arms)
+n_bin = len(arms); ARMS_RR=[a[0] for a in arms]
 
 # closures with a single ctor application in op_out_only callers
 body = body.replace('self.op_out_only(out, |out| RegOp::CopyImm(out, imm));',
@@ -122,5 +122,7 @@ for nm in ('new', 'empty', 'reset', 'finalize'):
     i, j, k = find_fn(body, nm)
     body = body[:i] + '    #[verifier::external_body]\n' + body[i:]
 
+import json
+json.dump({'op_reg': ARMS_UN, 'op_reg_imm': ARMS_IMM, 'op_reg_reg': ARMS_RR}, open('/tmp/probe/alloc/arms.json','w'))
 sys.stderr.write('tables: unary=%d imm=%d bin=%d\n' % (n_unary, n_imm, n_bin))
 print(body)
